@@ -131,7 +131,7 @@ AUTH_OPTIONS = TStruct("options", "ctap2::AuthenticatorOptions", [
     F("rk", "rk", TBool()),
     F("up", "up", TBool()),
     F("uv", "uv", TBool()),
-])
+], ctor=("decode",))
 
 MC_EXT = TStruct("mcext", "ctap2::make_credential::Extensions", [
     F("credProtect", "cred_protect", TUInt("u8", small=2)),
@@ -145,7 +145,7 @@ HMAC_INPUT = TStruct("hmacin", "ctap2::get_assertion::HmacSecretInput", [
     F(2, "salt_enc", TBytes("hl", 80, dlen=32), required=True),
     F(3, "salt_auth", TBytes("hl", 32, dlen=16), required=True),
     F(4, "pin_protocol", TUInt("u32")),
-])
+], ctor=("decode",))
 
 GA_EXT_IN = TStruct("gaext", "ctap2::get_assertion::ExtensionsInput", [
     F("hmac-secret", "hmac_secret", HMAC_INPUT),
@@ -165,6 +165,7 @@ class TFilteredParams(T):
     entries "es256" | "eddsa" | "unkalg" (symbolic algorithm outside the known set) |
     "unktype" (known algorithm, other type)."""
     name = "filteredparams"
+    rust = "ctap_types::webauthn::FilteredPublicKeyCredentialParameters"
 
     def rust_ty(self):
         return "ctap_types::webauthn::FilteredPublicKeyCredentialParameters"
@@ -221,6 +222,7 @@ class TAttFmtPref(T):
     """attestationFormatsPreference: entries "packed" | "none" | "tpm" | "sym<n>" (symbolic text of
     n bytes assumed different from the known spellings)"""
     name = "attfmtpref"
+    rust = "ctap2::AttestationFormatsPreference"
 
     def make(self, ctx, path):
         kinds = ctx.var.choice(path, ["packed"])
